@@ -39,6 +39,9 @@ def nontrivial(mobs):
     branch, or some leaf absorbed another (more own pixels than a single chain could explain is not
     observable, so: a branch, or >= 2 trunk structures, or a dropped pixel)"""
     st = mobs.get('structs', {})
+    steps = mobs.get('steps', {})
+    if steps:
+        return (steps.get('nonekept', 0) + steps.get('onekept', 0) + steps.get('branch', 0)) > 0
     return any(s['kids'] for s in st.values()) or len(mobs.get('trunk', [])) >= 2 or \
         any(l == -1 for l in mobs.get('lmap', []))
 
@@ -56,6 +59,10 @@ def tags(case, mobs):
         t.append('nan')
     if any(l == -1 and case['k'][p] is not None for p, l in enumerate(mobs.get('lmap', []))):
         t.append('unassigned-kept-or-below')
+    # which rules of the construction the run exercised (measured by the model on the recorded order)
+    for k, v in mobs.get('steps', {}).items():
+        if v and k != 'newleaf' and k != 'joinone':
+            t.append('rule:' + k)
     return t
 
 
